@@ -129,6 +129,11 @@ pub fn judge(case: &Case, pred: &Prediction, h: &History) -> Option<(String, Str
     if pred.why.starts_with("@inconclusive") {
         return None;
     }
+    // CBOR carries string lengths: a value that mentions the sandbox path (input_filename with an
+    // absolute argument) is encoded differently for the real path and for its stand-in
+    if case.inv.to.as_deref() == Some("cbor") && want.windows(ROOT_TOKEN.len()).any(|w| w == ROOT_TOKEN.as_bytes()) {
+        return None;
+    }
     match (&pred.end, &h.exit) {
         (_, Exit::Hung) => v("I0", "run hung".into()),
         (_, Exit::Signaled(s)) => v("I0", format!("process died with signal {s}")),
@@ -1035,7 +1040,7 @@ pub fn minimise(case: &Case, class: &str, wk: &mut Worker) -> (Case, u32) {
 
 pub fn check(cfg: &Cfg) -> Result<i32, Harness> {
     let started = std::time::Instant::now();
-    let n = cfg.n(1200, 40_000);
+    let n = cfg.n(1200, 15_000);
     let idx: Vec<u64> = (0..n as u64).collect();
     struct Out {
         viol: Option<Violation>,
@@ -1145,7 +1150,7 @@ pub fn check(cfg: &Cfg) -> Result<i32, Harness> {
         }
     }
     // library stratum: readers, main loop and writers in-process under delivery schedules
-    let n_lib = cfg.n(30_000, 1_000_000) as u64;
+    let n_lib = cfg.n(30_000, 600_000) as u64;
     let lib = crate::par::proc_map(cfg, "C17lib", n_lib, 45)?;
     for (i, r) in lib.into_iter().enumerate() {
         evaluations += 1;
